@@ -553,9 +553,11 @@ func Trace(args []string) {
 // ------------------------------------------------------------------------------------ gates
 
 // Gate reproduces the model's schedule "runtime closes between Register and Attach":
-//   g1: InstantiateModule(name a, with close notifier) ... blocked at point "registered"
-//   g2: Runtime.Close
-//   g1: released
+//
+//	g1: InstantiateModule(name a, with close notifier) ... blocked at point "registered"
+//	g2: Runtime.Close
+//	g1: released
+//
 // Prints a Result; failing key "inst||rtclose@registered#notified".
 func Gate(args []string) {
 	res := common.Result{ID: 0, OK: true}
